@@ -305,11 +305,70 @@ def dl1(ctx, R):
     BIT = ("binop", "%", (OFF, ("const", 8)))
     MASK = ("binop", "<<", (("const", 1), BIT))
     v = Sym(prog, pp, dl).function_value()
+    ONE = ("const", 1)
     forms = [("call", "numpy.right_shift", (("call", "numpy.bitwise_and", (D, MASK), ()), BIT), ()),
              ("binop", ">>", (("binop", "&", (D, MASK)), BIT)), ("binop", ">>", (("binop", "&", (MASK, D)), BIT)),
-             ("call", "numpy.right_shift", (("binop", "&", (D, MASK)), BIT), ())]
+             ("call", "numpy.right_shift", (("binop", "&", (D, MASK)), BIT), ()),
+             # shift first, then keep the lowest bit
+             ("call", "numpy.bitwise_and", (("call", "numpy.right_shift", (D, BIT), ()), ONE), ()),
+             ("binop", "&", (("binop", ">>", (D, BIT)), ONE)), ("binop", "&", (ONE, ("binop", ">>", (D, BIT)))),
+             ("binop", "&", (("call", "numpy.right_shift", (D, BIT), ()), ONE)), ("call", "numpy.bitwise_and", (("binop", ">>", (D, BIT)), ONE), ())]
     if v in forms:
-        R.ok("daqmx.DigitalLineScaler.postprocess_data", pp.where(), "(data & (1 << (offset % 8))) >> (offset % 8)")
+        R.ok("daqmx.DigitalLineScaler.postprocess_data", pp.where(), "the bit at offset % 8 of each value: (data & (1 << bit)) >> bit, or (data >> bit) & 1")
+        # the integer constants combined with the data must be values of every integer type a scaler can declare: NumPy (2.x) refuses
+        # a Python integer that does not fit the array's type instead of wrapping it
+        import numpy as np
+        from .sem import find
+        from .sym import collect
+
+        def ieval(t, bit):
+            if t == BIT:
+                return bit
+            if t[0] == "const" and isinstance(t[1], int) and not isinstance(t[1], bool):
+                return t[1]
+            if t[0] == "binop" and len(t[2]) == 2:
+                a, b = ieval(t[2][0], bit), ieval(t[2][1], bit)
+                if a is None or b is None:
+                    return None
+                return {"<<": lambda: a << b, ">>": lambda: a >> b, "%": lambda: a % b, "//": lambda: a // b, "+": lambda: a + b, "-": lambda: a - b,
+                        "*": lambda: a * b, "&": lambda: a & b, "|": lambda: a | b}.get(t[1], lambda: None)()
+            return None
+        masks = []
+        for x in collect(v, lambda y: isinstance(y, tuple) and y and ((y[0] == "call" and y[1] == "numpy.bitwise_and" and len(y[2]) == 2) or
+                                                                      (y[0] == "binop" and y[1] == "&" and len(y[2]) == 2))):
+            ops = x[2]
+            for o in ops:
+                if not collect(o, lambda y: y == D):
+                    masks.append(o)
+        mod = prog.module("daqmx")
+        codes = mod.assigns.get("DAQMX_TYPES")
+        int_types = []
+        if isinstance(codes, ast.Dict):
+            npt = {d["cls"].name: d["nptype"] for d in prog.tds_types()}
+            for val in codes.values:
+                nm = (dotted(val) or "").split(".")[-1]
+                try:
+                    dt = np.dtype(eval(npt.get(nm) or "None", {"np": np, "numpy": np}))
+                except Exception:
+                    dt = None
+                if dt is not None and dt.kind in "iu" and dt not in int_types:
+                    int_types.append(dt)
+        bad = None
+        for dt in int_types:
+            info = np.iinfo(dt)
+            for m in masks:
+                for bit in range(8):
+                    val = ieval(m, bit)
+                    if val is not None and not (info.min <= val <= info.max):
+                        bad = bad or (dt, bit, val)
+        key = "daqmx.DigitalLineScaler.postprocess_data::mask fits every declared type"
+        if not int_types or not masks:
+            R.undecided(key, pp.where(), "integer scaler types or mask constants not recognised (%d types, %d masks)" % (len(int_types), len(masks)))
+        elif bad:
+            R.violation(key, pp.where(), "for a digital line declared as %s at bit %d the data is combined with the Python integer %d, which is not a value of that "
+                        "type: NumPy raises OverflowError instead of yielding the addressed bit" % bad)
+        else:
+            R.ok(key, pp.where(), "%d mask constant(s) x 8 bit positions fit each of the %d integer scaler types" % (len(masks), len(int_types)))
     elif match(("call", W(), W(), W()), v) is not None or v[0] == "binop":
         R.violation("daqmx.DigitalLineScaler.postprocess_data", pp.where(), "bit extraction is `%s`, not (data & (1 << (offset %% 8))) >> (offset %% 8)" % show(alpha(v))[:160])
     else:
